@@ -1519,6 +1519,8 @@ class SymEx:
         args = e.k
         if name in MATH_FNS:
             vals = [self.eval(st, a) for a in args]
+            if name in ('max', 'min') and not vals:
+                return ('const', 'engine.' + name)
             return fn(name, *vals)
         if name == 'generate_canonical':
             glv = self.eval_lv(st, args[0])
@@ -1613,6 +1615,8 @@ class SymEx:
             vals = [self.eval(st, a) for a in args]
             if vals:
                 return fn(name, *vals)
+            if name in ('max', 'min') and ir.is_int_type(e.ty):
+                return ('const', 'engine.' + name)
             return ('const', 'limits::' + name + ':' + str(e.ty))
         if name in ('ws', 'endl', 'flush', 'scientific', 'fixed', 'hex', 'dec', 'boolalpha'):
             return ('manip', name)
@@ -1659,7 +1663,7 @@ class SymEx:
                         node=e.cid)
             return ('void',)
         if name in ('max', 'min') and not args:
-            return ('const', '%s::%s' % (objtype, name))
+            return ('const', 'engine.' + name)
         # user functor / unknown library object
         obj = self.eval(st, objnode)
         vals = [self.eval(st, a) for a in args]
